@@ -199,6 +199,63 @@ def extra_scenarios(ctx):
                          {"path_kind": pk, "listing": sorted(os.listdir(d))})
             for f in os.listdir(d):
                 os.remove(os.path.join(d, f))
+        # (a') two MountedStores whose operations overlap (as two workers of one run produce): the second store's complete
+        # write/read happens on another thread while the first is between its local write and its upload / between its
+        # download and its local read
+        import threading
+        from uberjob.stores._mounted_store import MountedStore
+
+        class Remote(MountedStore):
+            def __init__(self, create, hook):
+                super().__init__(create)
+                self.blob, self.hook = None, hook
+
+            def copy_from_local(self, local_path):          # upload
+                self.hook()
+                with open(local_path, "rb") as f:
+                    self.blob = f.read()
+
+            def copy_to_local(self, local_path):            # download
+                with open(local_path, "wb") as f:
+                    f.write(self.blob)
+                self.hook()
+
+            def get_modified_time(self):
+                return None
+
+        for kind, create, va, vb in (("text", st.TextFileStore, "value of A", "B's much longer value " * 5),
+                                     ("json", st.JsonFileStore, {"a": 1}, ["b", 2, 3]),
+                                     ("pickle", st.PickleFileStore, ("A", 1), {"B": [2]}),
+                                     ("binary", st.BinaryFileStore, b"A" * 10, b"B" * 300)):
+            state = {"on": True, "timeout": False}
+            b = Remote(create, lambda: None)
+
+            def other():
+                if not state["on"]:
+                    return
+                state["on"] = False
+
+                def work():
+                    b.write(vb)
+                    state["b_read"] = b.read()
+                th = threading.Thread(target=work, daemon=True)
+                th.start()
+                th.join(10)
+                state["timeout"] = th.is_alive()
+                state["on"] = True
+            a = Remote(create, other)
+            ctx.case(("c12-mounted-overlap", kind))
+            try:
+                a.write(va)
+                got = (a.read(), state.get("b_read"))
+                b_after = b.read()
+            except BaseException as e:  # noqa
+                got, b_after = ("error", "%s: %s" % (type(e).__name__, str(e)[:80])), None
+            if state["timeout"]:
+                ctx.count("mounted_overlap_blocked", kind)
+            elif got != (va, vb) or b_after != vb:
+                ctx.fail("mounted:interference", "two MountedStore(%s) whose operations overlap read back %r / %r, written %r / %r"
+                         % (create.__name__, got, b_after, va, vb), {"store": kind})
         # (b) written over existing content
         for name, store, value in (("touch", st.TouchFileStore, None), ("text", st.TextFileStore, "new"), ("binary", st.BinaryFileStore, b"new"),
                                    ("json", st.JsonFileStore, {"a": 1}), ("pickle", st.PickleFileStore, (1, 2))):
